@@ -11,18 +11,8 @@ from sa.index import AnalysisError, unparse
 
 
 def grammar(idx):
-    ci = idx.cls("LarkPrintParser")
-    g = ci.class_assigns.get("GRAMMAR")
-    if not isinstance(g, ast.Constant):
-        raise AnalysisError("LarkPrintParser.GRAMMAR is not a string literal")
-    ctor = None
-    init = ci.methods["__init__"]
-    for n in ast.walk(init.node):
-        if isinstance(n, ast.Call) and unparse(n.func) == "Lark":
-            ctor = {k.arg: ast.literal_eval(k.value) for k in n.keywords}
-    if ctor is None:
-        raise AnalysisError("LarkPrintParser.__init__ does not build a Lark parser")
-    return g.value, ctor
+    from . import common as K
+    return K.lark_ctor(idx, "LarkPrintParser")
 
 
 class PrintModel:
